@@ -41,10 +41,9 @@ def world_with_patch(root: str, patch: str) -> World:
     try:
         dst = os.path.join(tmp, SRC_REL)
         shutil.copytree(os.path.join(root, SRC_REL), dst, ignore=shutil.ignore_patterns('__pycache__'))
-        r = subprocess.run(['git', 'apply', '--include=src/*', patch], cwd=tmp, capture_output=True, text=True,
-                           env=dict(os.environ, GIT_CEILING_DIRECTORIES=os.path.dirname(tmp)))
+        r = subprocess.run(['patch', '-p1', '--fuzz=3', '--no-backup-if-mismatch', '-s', '-i', patch], cwd=tmp, capture_output=True, text=True)
         if r.returncode != 0:
-            raise AnalysisError(f'cannot apply {patch}: {r.stderr.strip()[:300]}')
+            raise AnalysisError(f'cannot apply {patch}: {(r.stdout + r.stderr).strip()[:300]}')
         overrides = {}
         for dirpath, _, files in os.walk(dst):
             for fn in files:
